@@ -141,10 +141,12 @@ func ResolveStateConflictsV2(
 			if _, ok := visited[authEventID]; ok {
 				continue
 			}
+			// Mark the event before descending into it: in room versions whose
+			// event IDs are not hashes, auth events can refer to each other.
+			visited[authEventID] = struct{}{}
 			if event, ok := r.conflictedEventMap[authEventID]; ok {
 				events = append(events, fullControlSet(event)...)
 			}
-			visited[authEventID] = struct{}{}
 		}
 		return events
 	}
@@ -301,10 +303,12 @@ func ResolveStateConflictsV2New(
 			if _, ok := visited[authEventID]; ok {
 				continue
 			}
+			// Mark the event before descending into it: in room versions whose
+			// event IDs are not hashes, auth events can refer to each other.
+			visited[authEventID] = struct{}{}
 			if event, ok := r.conflictedEventMap[authEventID]; ok {
 				events = append(events, fullControlSet(event)...)
 			}
-			visited[authEventID] = struct{}{}
 		}
 		return events
 	}
@@ -679,16 +683,25 @@ func (r *stateResolverV2) calculateFullAuthChainAndConflictedSubgraph(
 // the list, rather than the end.
 func (r *stateResolverV2) createPowerLevelMainline() []PDU {
 	var mainline []PDU
+	// The events on the path from the resolved power level event to the event
+	// being looked at: in room versions whose event IDs are not hashes, auth
+	// events can refer to each other, and such a cycle must not be followed.
+	onPath := map[string]struct{}{}
 
 	// Define our iterator function.
 	var iter func(event PDU)
 	iter = func(event PDU) {
+		onPath[event.EventID()] = struct{}{}
+		defer delete(onPath, event.EventID())
 		// Append this event to the beginning of the mainline.
 		mainline = append(mainline, nil)
 		copy(mainline[1:], mainline)
 		mainline[0] = event
 		// Work through all of the auth event IDs that this event refers to.
 		for _, authEventID := range event.AuthEventIDs() {
+			if _, cyclic := onPath[authEventID]; cyclic {
+				continue
+			}
 			// Check that we actually have the auth event in our map - we need this so
 			// that we can look up the event type.
 			if authEvent, ok := r.authEventMap[authEventID]; ok {
@@ -728,13 +741,22 @@ func (r *stateResolverV2) getFirstPowerLevelMainlineEvent(event PDU) (
 		return pos, ok
 	}
 
+	// The events on the path from the supplied event to the event being looked
+	// at, so that auth events which refer to each other are not followed forever.
+	onPath := map[string]struct{}{}
+
 	// Define our iterator function.
 	var iter func(event PDU)
 	iter = func(event PDU) {
+		onPath[event.EventID()] = struct{}{}
+		defer delete(onPath, event.EventID())
 		// In much the same way as we do in createPowerLevelMainline, we loop
 		// through the event's auth events, checking that it exists in our supplied
 		// auth event map and finding power level events.
 		for _, authEventID := range event.AuthEventIDs() {
+			if _, cyclic := onPath[authEventID]; cyclic {
+				continue
+			}
 			// Check that we actually have the auth event in our map - we need this so
 			// that we can look up the event type.
 			authEvent, ok := r.authEventMap[authEventID]
